@@ -1,8 +1,10 @@
 (* C02 — readout clock and per-step bucket lifecycle (destructive / non-destructive).
    Only statements here; the model is Model/Exposure.v, the proofs are in Proofs/Exposure.v.
    Gen_C02 (src_guards: the guard lists of Readout.__init__, the two Readout setters and
-   ReadoutProperties.__init__;  src_empty: the table of Detector.empty(reset)) is regenerated from the
-   source on every run, and the theorems below are re-checked against it; so is src_set_readout (does
+   ReadoutProperties.__init__;  src_empty: the table of Detector.empty(reset) AND what the empty() of every
+   container does to each piece of state the container holds -- Charge: the 2-D array and the particle
+   dataframe -- and how run_pipeline's loop and its deprecated copy use Detector.empty: the full reset before the
+   loop, the per-step reset flag) is regenerated from the source on every run, and the theorems below are re-checked against it; so is src_set_readout (does
    Detector.set_readout always install a NEW ReadoutProperties built from the readout it is given?).
 
    Reading guide.  [scenario A zero G E form times start nd ops prog d0] = construct a Readout, apply the
@@ -15,8 +17,8 @@
    than the start time.  The constructor's `times` may come in any form [f]: list / tuple / scalar /
    expression / file (FList) or a numpy array (FNdarray); replace() hands the constructor a numpy array. *)
 From Coq Require Import QArith ZArith List Bool Lia.
-From PyxelV Require Import Model.Exposure Model.ExposureF Proofs.Exposure Proofs.ExposureSpec Proofs.ExposureSession
-  Proofs.ExposureF.
+From PyxelV Require Import Model.Exposure Model.ExposureF Proofs.ExposureEmpty Proofs.Exposure Proofs.ExposureSpec
+  Proofs.ExposureSession Proofs.ExposureF.
 From PyxelGen Require Import Gen_C02.
 Import ListNotations.
 Open Scope Q_scope.
@@ -66,16 +68,19 @@ Theorem C02_clock_steps_telescope :
 Proof. intros A zero. apply (st_steps_sum A zero src_guards src_empty); vm_compute; reflexivity. Qed.
 Print Assumptions C02_clock_steps_telescope.
 
-(* at the beginning of every step scene / photon / charge / signal / image are empty; pixel is zero in
-   destructive mode and at step 0, and the previous step's final pixel content in non-destructive mode —
-   for every program of per-step writers and every prior content d0 of the detector.
-   Re-proved against the regenerated table of Detector.empty. *)
+(* at the beginning of every step scene / photon / charge (its 2-D array AND its particle dataframe) / signal /
+   image are empty; pixel is zero in destructive mode and at step 0, and the previous step's final pixel content
+   in non-destructive mode — for every program of per-step writers (whichever way they fill the containers:
+   the program is an arbitrary transformer of all seven pieces of state) and every prior content d0 of the
+   detector.  Re-proved against the regenerated table of Detector.empty and the regenerated programs of every
+   container's empty(). *)
 Theorem C02_step_start_buckets :
   forall (A : Type) (zero : A) f r s nd ops (prog : program A) d0, valid_scenario r s nd ops ->
   exists trace,
     scenario A zero src_guards src_empty f r s nd ops prog d0 = Ran trace
     /\ forall i o, nth_error trace i = Some o ->
          scene (o_begin o) = None /\ photon (o_begin o) = None /\ charge (o_begin o) = None
+         /\ cframe (o_begin o) = None
          /\ signal (o_begin o) = None /\ image (o_begin o) = None
          /\ pixel (o_begin o) =
             match i with
@@ -86,6 +91,73 @@ Theorem C02_step_start_buckets :
             end.
 Proof. intros A zero. apply (st_step_start A zero src_guards src_empty); vm_compute; reflexivity. Qed.
 Print Assumptions C02_step_start_buckets.
+
+(* <Container>.empty(), as coded, on ANY state of the detector: every piece of state the container holds is
+   re-initialised (Pixel: zeros; everything else: nothing) whatever the pieces held before -- for Charge both the
+   2-D array and the particle dataframe, whichever of them was filled -- and no other container is touched.
+   Re-proved against the regenerated programs: [cprog_ok] runs each on all 2^7 shapes of a state. *)
+Theorem C02_container_empty_resets_every_piece :
+  forall (A : Type) (zero : A) (b : bucket) (d : det A) (p : piece),
+  getp p (run_cprog A zero (e_prog src_empty b) d)
+  = if bucket_eqb (owner p) b then cleared A zero p else getp p d.
+Proof. intros A zero b. apply run_cprog_ok. destruct b; vm_compute; reflexivity. Qed.
+Print Assumptions C02_container_empty_resets_every_piece.
+
+(* hence Detector.empty(reset) on any state: all seven pieces empty, except the pixel array, which is zero after
+   empty(True) and untouched by empty(False) *)
+Theorem C02_detector_empty :
+  forall (A : Type) (zero : A) (reset : bool) (d : det A),
+  det_empty A zero src_empty reset d
+  = {| scene := None; photon := None; charge := None; cframe := None;
+       pixel := if reset then Some zero else pixel d; signal := None; image := None |}.
+Proof. intros A zero. apply det_empty_ok. vm_compute. reflexivity. Qed.
+Print Assumptions C02_detector_empty.
+
+(* why the shape of the run loop is part of the regenerated table: with the per-step flag inverted
+   (`detector.empty(detector.non_destructive_readout)`) a destructive run keeps the pixel content from step to
+   step; without the full reset before the loop a non-destructive run starts from whatever pixel content an
+   earlier run left in the detector *)
+Example C02_ex_loop_shape_matters :
+  let E p i := {| e_always := e_always src_empty; e_if_reset := e_if_reset src_empty; e_scene := e_scene src_empty;
+                  e_photon := e_photon src_empty; e_charge := e_charge src_empty; e_pixel := e_pixel src_empty;
+                  e_signal := e_signal src_empty; e_image := e_image src_empty;
+                  e_read_stores := e_read_stores src_empty; e_init_reset := i; e_loop_reset := p;
+                  e_old_loop_same := true |} in
+  let pixels E nd := match scenario Z 0%Z src_guards E FList (R1 [TQ 1; TQ 2]) (TQ 0) nd [] (prog_of [[WAdd Pixel 3]; []]%Z)
+                                    (mkdet None None None None (Some 9%Z) None None) with
+                     | Ran os => map (fun o => pixel (o_begin o)) os | Rejected _ => [] end in
+  pixels (E LIfDestructive true) false = [Some 0; Some 0]%Z
+  /\ pixels (E LIfNonDestructive true) false = [Some 0; Some 3]%Z
+  /\ pixels (E LIfDestructive true) true = [Some 0; Some 3]%Z
+  /\ pixels (E LIfDestructive false) true = [Some 9; Some 12]%Z
+  /\ empty_table_ok (E LIfDestructive true) = true
+  /\ empty_table_ok (E LIfNonDestructive true) = false /\ empty_table_ok (E LIfDestructive false) = false.
+Proof. vm_compute. repeat split. Qed.
+
+(* why the check of the container programs is needed: a Charge.empty() that re-initialises the 2-D array only
+   when there was no particle (`if frame holds: reset frame  elif array holds: reset array`) passes on charge
+   deposited as an array and leaks charge deposited as particles -- the array derived from them, which
+   run_pipeline stored when it extracted the step's result, survives *)
+Example C02_ex_conditional_charge_empty_leaks :
+  let pr := [[(CHolds PChargeFrame, [PChargeFrame]); (CHolds PChargeArr, [PChargeArr])]] in
+  cprog_ok Charge pr = false
+  /\ run_cprog Z 0%Z pr (mkdet None None (Some 7%Z) None None None None) = mkdet None None None None None None None
+  /\ run_cprog Z 0%Z pr (mkdet None None (Some 7%Z) (Some 7%Z) None None None)
+     = mkdet None None (Some 7%Z) None None None None.
+Proof. vm_compute. repeat split. Qed.
+
+(* non-vacuity with particles: destructive run over [1; 2; 3], every step deposits 200 e- as particles and 5 e-
+   as an array (in that order, then the other way round): every step starts with an empty array and an empty
+   dataframe and ends with 205 in the dataframe; the 2-D array only follows the dataframe when it is read *)
+Example C02_ex_particles :
+  match scenario Z 0%Z src_guards src_empty FList (R1 [TQ 1; TQ 2; TQ 3]) (TQ 0) false []
+                 (prog_of [[WPart 200; WAdd Charge 5]; [WAdd Charge 5; WPart 200]; [WPart 200]]%Z)
+                 (mkdet None None (Some 9%Z) (Some 9%Z) None None None) with
+  | Ran os => map (fun o => (charge (o_begin o), cframe (o_begin o), charge (o_end o), cframe (o_end o))) os
+  | Rejected _ => []
+  end
+  = [(None, None, None, Some 205); (None, None, Some 5, Some 205); (None, None, None, Some 200)]%Z.
+Proof. vm_compute. reflexivity. Qed.
 
 (* nothing left in the detector by an earlier run leaks into this one: the whole outcome (every clock,
    every bucket at the start and at the end of every step) is independent of d0 — for ALL scenarios *)
@@ -209,6 +281,7 @@ Theorem C02_session_step_start_buckets :
     nth_error (session A zero src_guards src_empty src_set_readout runs st) k = Some (Ran trace)
     /\ forall i o, nth_error trace i = Some o ->
          scene (o_begin o) = None /\ photon (o_begin o) = None /\ charge (o_begin o) = None
+         /\ cframe (o_begin o) = None
          /\ signal (o_begin o) = None /\ image (o_begin o) = None
          /\ pixel (o_begin o) =
             match i with
@@ -358,8 +431,8 @@ Qed.
 (* non-destructive run over [2; 3; 7/2] from 1 on a detector full of junk, a writer adding 5 to pixel and
    setting photon at every step: clocks (2,1,3,0,T,F) (3,1,4,1,F,F) (7/2,1/2,9/2,2,F,T), pixel 0 -> 5 -> 10 -> 15 *)
 Example C02_ex_trace :
-  let junk := {| scene := Some 9; photon := Some 9; charge := Some 9; pixel := Some 9; signal := Some 9;
-                 image := Some 9 |}%Z in
+  let junk := {| scene := Some 9; photon := Some 9; charge := Some 9; cframe := Some 9; pixel := Some 9;
+                 signal := Some 9; image := Some 9 |}%Z in
   match model_of src_guards src_empty src_set_readout
           {| k_form := FList; k_raw := R1 [TQ (1#2); TQ 1; TQ 4]; k_start := TQ (-1); k_nd := true;
              k_ops := [OSetTimes (R1 [TQ 2; TQ 3; TQ (7#2)]); OSetStart (TQ 1)]; k_d0 := junk;
